@@ -62,11 +62,11 @@ func logTail(calls []string, n int) []string {
 func C09(tier string) int {
 	res := NewResult("C09", tier, "fault_enumeration")
 	bound := 1
-	corpus := append(CorpusWithHooks(), AddressingCorpus()...)
+	corpus := append(append(CorpusWithHooks(), AddressingCorpus()...), HistoryCorpus()...)
 	if res.Thorough() {
 		bound = 2
 	}
-	res.Rule = fmt.Sprintf("for each of %d scenarios (every default side-effect path of both protocols, delivery, forwarding, GET endpoints): the fault-free run and every run with <= %d of its fallible seam calls (Database incl. Lock/Unlock, Transport, NewTransport, callbacks) failing, enumerated depth-first by choice list; non-trivial = a run in which the library took at least one lock; distinct = (scenario, choice list)", len(corpus), bound)
+	res.Rule = fmt.Sprintf("for each of %d scenarios (every default side-effect path of both protocols, delivery, forwarding, GET endpoints; each POST scenario also with application hooks that log / fail after the default effect / call back into the library, and again started from the state an earlier request of the same kind left behind; a generated addressing family with forwarding filters that work in place): the fault-free run and every run with <= %d of its fallible seam calls (Database incl. Lock/Unlock, Transport, NewTransport, callbacks) failing, enumerated depth-first by choice list; non-trivial = a run in which the library took at least one lock; distinct = (scenario, choice list)", len(corpus), bound)
 	res.Assumptions = []string{"an erroring Unlock still frees the lock, an erroring Lock does not acquire it",
 		"locks are counted, not blocking (one request cannot hang the check)", "fault bound as stated"}
 	mk := &minimalKeys{}
@@ -129,7 +129,7 @@ func ReplayC09(rep M) {
 	for _, c := range rep["choices"].([]interface{}) {
 		choices = append(choices, int(c.(float64)))
 	}
-	for _, sc := range append(CorpusWithHooks(), AddressingCorpus()...) {
+	for _, sc := range append(append(CorpusWithHooks(), AddressingCorpus()...), HistoryCorpus()...) {
 		if sc.Name == name {
 			out := sc.Exec(mc.NewExec(choices), true)
 			for _, c := range out.App.Log {
